@@ -338,6 +338,12 @@ def fuzz_inputs(repo, tier, seed):
         head = [x for x in out if len(x[1]) < 600]
         rnd.shuffle(head)
         out = head[:2500]
+    # every NOTIFICATION error code (assigned and not) x subcode, with and without data
+    for code in list(range(0, 10)) + [255]:
+        for sub in list(range(0, 13)) + [255]:
+            out.append(('FUZZ_NOTIF', wire.frame(3, bytes([code, sub]))))
+            if sub in (0, 1, 7):
+                out.append(('FUZZ_NOTIF', wire.frame(3, bytes([code, sub]) + b'\x00\x04')))
     # TLC-enumerated grids of spec/WireTlv.tla: one capability / attribute / MP NLRI of every code x length x body pattern
     import check_decoders
     for fam, typ, cls in (('capgrid', 1, 'FUZZ_OPEN'), ('attrgrid', 2, 'FUZZ_UPD'), ('mpgrid', 2, 'FUZZ_UPD')):
@@ -480,10 +486,29 @@ def c16_run(tid, wcfg, cfgline, state, rule, method, cred, bname, body, rq):
     return rec.lines
 
 
+def max_size_bodies():
+    """send/update and send/bin_update requests whose UPDATE is exactly 4096 / 4095 / 4000 octets (eBGP, 4-octet AS)"""
+    out = []
+    u = {'cls': 'send', 'valid': True, 'etype': 'UPDATE', 'wdn': 0, 'nln': 0, 'ats': [1, 2, 3], 'ibgp': False, 'lp': -1}
+    base = {'1': 0, '2': [[2, [65001]]], '3': '10.0.0.1'}
+    for total, tail in ((4096, ['10.250.0.0/16']), (4095, ['10.0.0.0/8']), (4093, [])):
+        n32 = (total - 43 - sum({16: 3, 8: 2}[int(t.split('/')[1])] for t in tail)) // 5
+        nl = ['10.%d.%d.%d/32' % (1 + i // 65536, (i // 256) % 256, i % 256) for i in range(n32)] + tail
+        out.append(('send/update', 'size%d' % total, {'attr': dict(base), 'nlri': nl}, dict(u, nln=len(nl))))
+        pf = tuple((32, bytes([10, 1 + i // 65536, (i // 256) % 256, i % 256])) for i in range(n32)) + tuple(
+            (int(t.split('/')[1]), bytes(int(x) for x in t.split('/')[0].split('.'))[:int(t.split('/')[1]) // 8]) for t in tail)
+        msg = wire.simple_update(prefixes=pf, asns=(65001,), asn4=True)
+        out.append(('send/bin_update', 'binsize%d' % len(msg), {'binary_data': msg.hex()}, dict(u, nln=len(nl))))
+    return out
+
+
 def c16_jobs(tier, seed):
     rnd = random.Random(seed)
     jobs = []
     rules = url_rules()
+    for rule, bname, body, rq in max_size_bodies():
+        for state in ('ESTABLISHED', 'OPENCONFIRM'):
+            jobs.append(('c16', dict(las=65001, ras=65002, hold=90), state, rule, 'POST', 'good', bname, body, rq))
     for wcfg in (dict(las=65001, ras=65002, hold=90), dict(las=65001, ras=65001, hold=90)):
         for state in C16_STATES:
             for rule in rules:
